@@ -81,3 +81,71 @@ func verifC17Flatten(which int) {
 
 func VerifHarness_C17_flatten_roundtrip_secp() { verifC17Flatten(0) }
 func VerifHarness_C17_flatten_roundtrip_ed()   { verifC17Flatten(1) }
+
+// the same with the three concrete points of order 2 and 4 added to an arbitrary prime-order
+// point x*G: cofactor clearing must return x*G itself. (Unlike the harness above, whose
+// input is an arbitrary accepted coordinate pair, a counterexample here replays natively.)
+func VerifHarness_C17_eightinveight_concrete_torsion() {
+	ec := tss.Edwards()
+	q := ec.Params().N
+	P := ec.Params().P
+	// a square root of -1 modulo p = 2^255 - 19
+	sqrtm1 := new(big.Int).SetBytes([]byte{0x2b, 0x83, 0x24, 0x80, 0x4f, 0xc1, 0xdf, 0x0b, 0x2b, 0x4d, 0x00, 0x99, 0x3d, 0xfb, 0xd7, 0xa7, 0x2f, 0x43, 0x18, 0x06, 0xad, 0x2f, 0xe4, 0x78, 0xc4, 0xee, 0x1b, 0x27, 0x4a, 0x0e, 0xa0, 0xb0})
+	tors := [][2]*big.Int{
+		{big.NewInt(0), new(big.Int).Sub(P, big.NewInt(1))}, // order 2
+		{sqrtm1, big.NewInt(0)},                              // order 4
+		{new(big.Int).Sub(P, sqrtm1), big.NewInt(0)},         // order 4
+	}
+	t := tors[v.NondetInt("which", 0, 2)]
+	T, err := NewECPoint(ec, t[0], t[1])
+	v.Assert("small-order-point-is-on-the-curve", err == nil)
+	if err != nil {
+		return
+	}
+	x := v.NondetNat("x")
+	v.Assume("scalar-in-Zq*", v.InRange(x, big.NewInt(1), q))
+	G := ScalarBaseMult(ec, x)
+	Pt, err := G.Add(T)
+	v.Assert("sum-is-on-the-curve", err == nil)
+	if err != nil {
+		return
+	}
+	v.Assert("input-has-a-small-order-component", !Pt.Equals(G))
+	v.Assert("cofactor-clearing-removes-it", Pt.EightInvEight().Equals(G))
+	// and a bare small-order point is mapped to the identity (0,1)
+	I := T.EightInvEight()
+	v.Assert("small-order-point-maps-to-identity", I.X().Sign() == 0 && I.Y().Cmp(big.NewInt(1)) == 0)
+	v.Reach("end")
+}
+
+// an off-curve pair at ANY position of the list is refused (the off-curve pair is concrete -
+// the generator with y+1 - so that a counterexample replays natively; the other point is an
+// arbitrary multiple of the generator)
+func verifC17OffCurvePosition(which int) {
+	ec := tss.S256()
+	if which == 1 {
+		ec = tss.Edwards()
+	}
+	q := ec.Params().N
+	k := v.NondetNat("k")
+	v.Assume("scalar-in-Zq*", v.InRange(k, big.NewInt(1), q))
+	good := ScalarBaseMult(ec, k)
+	badX, badY := ec.Params().Gx, new(big.Int).Add(ec.Params().Gy, big.NewInt(1))
+	v.Assert("perturbed-generator-is-off-curve", !ec.IsOnCurve(badX, badY))
+	n := v.NondetInt("points", 1, 3)
+	pos := v.NondetInt("bad_position", 0, n-1)
+	var in []*big.Int
+	for i := 0; i < n; i++ {
+		if i == pos {
+			in = append(in, badX, badY)
+		} else {
+			in = append(in, good.X(), good.Y())
+		}
+	}
+	pts, err := UnFlattenECPoints(ec, in)
+	v.Assert("off-curve-pair-refused-at-every-position", err != nil && pts == nil)
+	v.Reach("end")
+}
+
+func VerifHarness_C17_unflatten_offcurve_any_position_secp() { verifC17OffCurvePosition(0) }
+func VerifHarness_C17_unflatten_offcurve_any_position_ed()   { verifC17OffCurvePosition(1) }
